@@ -352,8 +352,18 @@ def run_impl(build, wd, c):
         if c.get("emu"):
             rce, _, erre = trace.run_tool(build, "ovniemu", [], d, timeout=60)
             res["rce"], res["erre"] = rce, erre[-1500:]
+    # the same command when the kernel transfers only a few bytes per pwrite() (every third case)
+    if SHIM[0] and c["k"] % 3 == 0:
+        for s in c["streams"]:
+            open(obs_path(d, s["tid"]), "wb").write(trace.STREAM_HEADER + b"".join(enc(e) for e in s["events"]))
+        mx = [1, 5, 13, 64][(c["k"] // 3) % 4]
+        rcs, _, errs = trace.run_tool(build, "ovnisort", nargs, d, timeout=120, env={"LD_PRELOAD": SHIM[0], "SHORTIO_MAX": str(mx)})
+        res["short"] = (mx, rcs, errs[-600:], [open(obs_path(d, s["tid"]), "rb").read() for s in c["streams"]])
     shutil.rmtree(d, ignore_errors=True)
     return res
+
+
+SHIM = [None]
 
 
 def model_line(n, evs):
@@ -427,6 +437,14 @@ def run(chk):
     for c in cases:
         c["emu"] = all(emu_ok(s) for s in c["streams"])
 
+    shim = os.path.join(common.BUILD, "harness", "shortio_shim-%s.so" % common.hashlib.md5(
+        open(os.path.join(common.VERIF, "harness", "shortio_shim.c"), "rb").read()).hexdigest()[:8])
+    if not os.path.exists(shim):
+        os.makedirs(os.path.dirname(shim), exist_ok=True)
+        rcx, _, ex = common.run(["cc", "-shared", "-fPIC", "-O1", "-o", shim, os.path.join(common.VERIF, "harness", "shortio_shim.c"), "-ldl"], timeout=120)
+        if rcx != 0:
+            raise RuntimeError("short-io shim does not build: %s" % ex[-400:])
+    SHIM[0] = shim
     wd = trace.workdir("ovni-verif-c16-")
     try:
         results = trace.pmap(lambda c: run_impl(build, wd, c), cases)
@@ -493,6 +511,13 @@ def run(chk):
                     exp_rc_ok = False
                 if (m["sort"] == "none") != (st != "ok"):
                     corr.append(("model-internal", c["k"], rep, m["sort"], m["file"]))
+            if res.get("short") is not None:
+                mx, rcs, errs, outs = res["short"]
+                chk.count("short-pwrite:%d" % mx)
+                if rcs != res["rc"] or (rcs == 0 and outs != res["out"]):
+                    viol(c, "short-pwrite:" + key_in, "with pwrite() transferring at most %d bytes per call ovnisort exits %s and leaves %s stream (complete writes: exit %s)" % (
+                        mx, rcs, "the same" if outs == res["out"] else "a different", res["rc"]),
+                        {"case": rep, "pwrite_max": mx, "stderr": errs, "how": "LD_PRELOAD=build/harness/shortio_shim-*.so SHORTIO_MAX=%d ovnisort ..." % mx})
             impl_ok = res["rc"] == 0
             if impl_ok != exp_rc_ok:
                 corr.append(("exit-status", c["k"], rep, "impl rc=%s" % res["rc"], "model %s" % ("ok" if exp_rc_ok else "fails"), res["err"][-300:]))
